@@ -502,9 +502,12 @@ func emit(w *gen.Writer, id string, cs, strict bool, items []item, reqs []reqIn)
 // ---------------------------------------------------------------- generator
 
 var prefixes = []string{"/api", "/api", "/v1", "/", "", "/api/", "api", "/API", "/:tenant", "/:Tenant", "/a/b",
-	"/x-y", `/a\:b`, "/:org/p", "/V1/", "/api/v1", "/:id", "/u/:uid"}
+	"/x-y", `/a\:b`, "/:org/p", "/V1/", "/api/v1", "/:id", "/u/:uid",
+	// unnamed wildcards in a prefix: their keys (*1, *2, +1, …) are numbered over the FULL path
+	"/zone/*/admin", "/w/*", "/p/+", "/+/x", "/f/*/:id", "/*"}
 var routePaths = []string{"/", "/x", "/x", "x", "/x/", "/:id", "/:id/y", "/*", "/X", "/y", "/y/z", "/:tenant",
-	`/c\:d`, "/+", "/:Name", "/api", "/x/:id?", "/:id<int>", "/z/"}
+	`/c\:d`, "/+", "/:Name", "/api", "/x/:id?", "/:id<int>", "/z/",
+	"/files/*", "/d/+/e", "/*/t", "/+/:id", "/s/*/u/*"}
 var emptyPath = ""
 
 type genCtx struct {
